@@ -34,7 +34,8 @@ RULE = ("history = event sequence over {key-addressed operation (get, set, delet
         "servers heal, traffic for two dead_timeouts restores the original rotation and placement; only the failing "
         "server's own error or 'All servers seem to be down' escape, nothing with ignore_exc. Non-trivial: a server "
         "went failing -> dead -> revived, or was probed again after a retry_timeout. Address styles: distinct hosts with int ports, or one host with ports 11211+i given as int for some servers and as text for others, or 'host:port' strings. Two users at once (turns at connect / send / receive / close, two calls each, four idle connections in the pool) while the server fails, its retry is due, its retries are used up or it is back after having been given up: only the server's error or 'all servers down' escapes, nothing with ignore_exc, and the rotation recovers. Operation incr_text makes a healthy server answer with an error line (optionally hanging up afterwards, dialect hangup-after-error): that is the call's error, not a server failure - an OSError counts as a server's own error only while a server is failing. Long lives: 1500 (thorough 6000) events on one client; operation get_many_big sends 4500 keys to one (failing) server in one call."
-        + ' In the two-users part an outage is a server process that died: connections made before it stay dead (restarts_kill_connections); once the server is healthy and due back (phase given-up-and-back) no call may fail.')
+        + ' In the two-users part an outage is a server process that died: connections made before it stay dead (restarts_kill_connections); once the server is healthy and due back (phase given-up-and-back) no call may fail.'
+        + ' Given up late: a server that uses its retry budget up during an outage and is still in rotation when everything heals, a second server given up at another moment, recovery traffic every 0.9 / 3 / 7 / 13 / 29 s: placement is back within two dead_timeouts (D26).')
 MANIFEST = {
     "category": "exploration",
     "technique": "stateful model-based exploration of failure/recovery event sequences on a virtual clock: bounded-exhaustive to a depth bound over a reduced alphabet x all retry configurations, plus Hypothesis sequences; invariants over a contact log and a routing log observed through the client_class and hasher seams",
@@ -771,7 +772,30 @@ def check_two_users(case):
     return sc.switches > 0, ["two-users", phase, "ra=%d" % ra, "ie=%s" % ie]
 
 
+def late_eviction_cases(tier, seed):
+    """a server uses its retry budget up during an outage and is still in rotation when everything heals (it is given up at the
+    next access, healthy or not); a second server is given up at another moment; then traffic of different densities (a call
+    every 0.9 ... 29 s): placement is back within two dead_timeouts (D26)"""
+    for nsrv in (2, 3):
+        for ra in (0, 1, 2):
+            for gaps in ((30, 20), (2, 2), (61, 61), (59, 3)):
+                for second in (None, "before", "after"):
+                    for step in (0.9, 3, 7, 13, 29):
+                        for kind in ("refused", "timeout"):
+                            ev = [["fail", nsrv - 1, kind], ["op", "get", nsrv - 1]]
+                            for g in (list(gaps) * 2)[:ra]:
+                                ev += [["adv", g], ["op", "get", nsrv - 1]]
+                            if second and nsrv > 2:
+                                ev2 = [["fail", 1, "oserror"], ["op", "get", 1], ["op", "get", nsrv - 1], ["adv", 61], ["op", "get", 1], ["op", "get", nsrv - 1], ["adv", 60], ["op", "get", 1], ["op", "get", nsrv - 1]]
+                                ev = ev + ev2 if second == "after" else ev2[:5] + ev + ev2[5:]
+                            elif second:
+                                continue
+                            yield {"servers": nsrv, "retry_attempts": ra, "ignore_exc": bool((ra + nsrv) % 2) and step > 5, "backend": "scripted", "recovery_step": step,
+                                   "events": ev, "hasher": "subclass", "addr_style": (ra + nsrv) % 4}
+
+
 PARTS = [
+    Part("given-up-late", "enum", check, cases=late_eviction_cases, exhaustive=True, minimise=minimise),
     Part("two-users-at-once", "enum", check_two_users, cases=two_users_cases, exhaustive=True),
     Part("long-lives", "enum", check, cases=soak_cases, shards={"quick": 12, "thorough": 12}, minimise=minimise),
     Part("exhaustive-depth", "enum", check, cases=exhaustive_cases, exhaustive=True, minimise=minimise, distinct_by_construction=True),
